@@ -973,3 +973,162 @@ pub fn run_filter_tls(cfg: &ScenCfg, out: &mut RunOut) {
     }
     kernel::settle();
 }
+
+// ---------------------------------------------------------------------------
+// C07 / C15 on TLS: a peer that stalls in the middle of the handshake must not keep
+// the task from honouring disable / shutdown, nor a server session from being closed.
+
+/// variant 0: rodbus TLS client against a stalling server; 1: rodbus TLS server with a stalling client
+pub fn run_handshake_stall(cfg: &ScenCfg, out: &mut RunOut) {
+    let sched = chance(1, 2);
+    let chunk = chance(1, 2);
+    kernel::with(|w| {
+        w.cfg.sched_random = sched;
+        w.cfg.select_random = sched;
+        w.cfg.chunk_reads = chunk;
+    });
+    let (dec_idx, decode) = pick_decode(&cfg.decode);
+    // what the stalling peer sends before going silent
+    let prefix: Vec<u8> = match choose(4) {
+        0 => Vec::new(),
+        1 => vec![0x16, 0x03, 0x03],                         // start of a handshake record header
+        2 => vec![0x16, 0x03, 0x03, 0x00, 0x50, 0x02, 0x00], // record header + truncated body
+        _ => (0..1 + choose(40)).map(|_| choose(256) as u8).collect(),
+    };
+    let stall_is_garbage = prefix.len() > 7 || (prefix.len() >= 1 && prefix[0] != 0x16);
+    let mut wl = dec_idx as u64 | (cfg.variant as u64) << 8;
+    hash_bytes(&mut wl, &prefix);
+    if cfg.variant == 0 {
+        let tls = TlsClientConfig::full_pki(
+            Some("test.com".to_string()),
+            &fixture("ca1_cert.pem"),
+            &fixture("cli_operator_cert.pem"),
+            &fixture("cli_operator_key.pem"),
+            None,
+            MinTlsVersion::V1_2,
+        )
+        .expect("client config");
+        let addr: SocketAddr = "10.0.0.7:802".parse().unwrap();
+        net::stub_listen(addr);
+        let states: super::client::StateLog = Arc::new(Mutex::new(Vec::new()));
+        let comps: super::client::Completions = Arc::new(Mutex::new(Vec::new()));
+        let (channel, task) = create_tls_client_task_with_options(
+            HostAddr::ip(addr.ip(), addr.port()),
+            doubling_retry_strategy(Duration::from_secs(1), Duration::from_secs(1)),
+            tls,
+            Some(Box::new(super::client::Listen { log: states.clone() })),
+            ClientOptions::default().decode_level(decode),
+        );
+        let task = simtokio::task::spawn_named("tls-client", task.run());
+        kernel::settle();
+        let _ = kernel::block_on(channel.enable());
+        kernel::settle();
+        let peer = match net::stub_accept(addr) {
+            Some(p) => p,
+            None => {
+                out.violate("C13", "no_connection_established", "TLS client did not dial".into());
+                return;
+            }
+        };
+        // the peer reads the ClientHello, answers with the prefix, then stays silent and open
+        let hello = peer.take_received();
+        peer.write(&prefix);
+        kernel::settle();
+        kernel::advance(2_000 * MS);
+        // a request made meanwhile must not hang forever (it is not connected)
+        let req = crate::model::pdu::Req::ReadCoils { start: 0, count: 1 };
+        super::client::submit(&channel, super::client::Style::Future, 0, &req, 1, 100 * MS, &comps);
+        kernel::advance(1_000 * MS);
+        let completed = comps.lock().unwrap().len();
+        // shutdown must end the task
+        let ch2 = channel.clone();
+        simtokio::task::spawn_named("cmd", async move {
+            let _ = ch2.shutdown().await;
+        });
+        kernel::advance(5_000 * MS);
+        let finished = task.is_finished();
+        let closed_by_client = peer.remote_closed();
+        if !finished && !stall_is_garbage {
+            if !out.known("C07", "tls_client_handshake_not_raced_against_commands") {
+                out.violate(
+                    "C07",
+                    "tls_handshake_stall_blocks_shutdown",
+                    format!("TLS client: the peer sent {} bytes of a handshake ({}) and went silent; 5 s after shutdown() the task is still running (request completed: {}, connection closed by client: {})", prefix.len(), hex(&prefix), completed, closed_by_client),
+                );
+            }
+        } else if !finished && stall_is_garbage {
+            out.violate("C07", "garbage_handshake_blocks_shutdown", format!("TLS client: garbage {} in place of a ServerHello; task still running 5 s after shutdown", hex(&prefix)));
+        }
+        if finished && completed != 1 {
+            out.violate("C10", "request_lost_during_handshake", format!("a request submitted during the TLS handshake completed {} times", completed));
+        }
+        out.probe(if finished { "stall_client_shutdown_ok" } else { "stall_client_wedged" });
+        out.sample = Some(json!({"scenario": "tls handshake stall (client)", "client_hello_bytes": hello.len(), "peer_prefix": hex(&prefix), "task_finished_after_shutdown": finished}));
+        drop(peer);
+    } else {
+        let tls = TlsServerConfig::new(
+            &fixture("ca1_cert.pem"),
+            &fixture("srv_ok_cert.pem"),
+            &fixture("srv_ok_key.pem"),
+            None,
+            MinTlsVersion::V1_2,
+            CertificateMode::AuthorityBased,
+        )
+        .expect("server config");
+        let journal: Journal = Arc::new(Mutex::new(Vec::new()));
+        let handler = MemHandler {
+            unit: 1,
+            mem: UnitMem::new(1),
+            journal: journal.clone(),
+        }
+        .wrap();
+        let map = ServerHandlerMap::single(UnitId::new(1), handler);
+        let addr: SocketAddr = "10.0.0.1:802".parse().unwrap();
+        let listener = TcpListener::bind_now(addr).unwrap();
+        let max_sessions = 1 + choose(2) as usize;
+        let (handle, task) = create_tls_server_task(max_sessions, listener, map, tls, AddressFilter::Any, decode);
+        let task = simtokio::task::spawn_named("tls-server", task.run());
+        kernel::settle();
+        // stalling clients
+        let n = 1 + choose(3) as usize;
+        let mut stalled = Vec::new();
+        for i in 0..n {
+            let p = net::connect_from(addr, format!("10.0.5.{}:{}", i + 1, 4000 + i).parse().unwrap()).unwrap();
+            p.write(&prefix);
+            kernel::settle();
+            stalled.push(p);
+        }
+        kernel::advance(1_000 * MS);
+        let evict_expected = n > max_sessions;
+        // eviction: the oldest stalled sessions beyond the limit must be closed
+        if evict_expected && !stall_is_garbage {
+            let open = stalled.iter().filter(|p| !p.remote_closed()).count();
+            if open > max_sessions && !out.known("C15", "tls_server_session_in_handshake_not_closed") {
+                out.violate("C15", "stalled_handshake_sessions_exceed_limit", format!("{} connections stalled in the TLS handshake are still open, max_sessions={}", open, max_sessions));
+            }
+        }
+        // shutdown closes every session, also those still in the handshake
+        {
+            let mut fut = Box::pin(handle.shutdown());
+            let _ = kernel::block_on(fut.as_mut());
+        }
+        kernel::advance(5_000 * MS);
+        let open = stalled.iter().filter(|p| !p.remote_closed()).count();
+        if !task.is_finished() {
+            out.violate("C15", "server_task_survives_shutdown", "TLS server task still running after shutdown".into());
+        } else if open > 0 && !stall_is_garbage {
+            if !out.known("C15", "tls_server_session_in_handshake_not_closed") {
+                out.violate(
+                    "C15",
+                    "handshaking_session_survives_shutdown",
+                    format!("TLS server: {} connection(s) stalled in the handshake (peer sent {}) are still open 5 s after the server was shut down", open, hex(&prefix)),
+                );
+                out.violate("C07", "handshaking_session_survives_shutdown", format!("{} stalled TLS sessions survive server shutdown", open));
+            }
+        }
+        out.probe(if open == 0 { "stall_server_closed_all" } else { "stall_server_left_open" });
+        out.sample = Some(json!({"scenario": "tls handshake stall (server)", "stalled_clients": n, "max_sessions": max_sessions, "peer_prefix": hex(&prefix), "open_after_shutdown": open}));
+    }
+    out.ops_checked = 1;
+    out.nontrivial = Some(wl);
+}
